@@ -28,6 +28,8 @@ CASES = {
     "Isobaric+DisplacementMove": dict(driver="quansino.mc.isobaric.Isobaric", kw={"temperature": None, "pressure": None}, move="disp"),
     "GrandCanonical+ExchangeMove": dict(driver="quansino.mc.gcmc.GrandCanonical", kw={}, move="exchange", extra_arrays=(("initial_magmoms", (), "float"),)),
     "Isobaric+CellMove[FixAtoms]": dict(driver="quansino.mc.isobaric.Isobaric", kw={"temperature": None, "pressure": None}, move="cell", constraints=("FixAtoms",)),
+    "Canonical+DisplacementMove[rebuilt from a restart file: reference energy known, calculator fresh]": dict(driver="quansino.mc.canonical.Canonical", kw={}, move="disp", restarted=True),
+    "Isobaric+CellMove[rebuilt from a restart file: reference energy known, calculator fresh]": dict(driver="quansino.mc.isobaric.Isobaric", kw={"temperature": None, "pressure": None}, move="cell", restarted=True),
     "GrandCanonical+DisplacementMove": dict(driver="quansino.mc.gcmc.GrandCanonical", kw={}, move="disp"),
     "GrandCanonical+ExchangeMove then DisplacementMove": dict(driver="quansino.mc.gcmc.GrandCanonical", kw={}, move="exchange", second="disp"),
 }
@@ -61,6 +63,9 @@ def make_sim(I, case, stateful=False, ntrials=2):
         mv2 = I.call(I.get_class("quansino.moves.displacement.DisplacementMove"), [labels.like(labels.term), OpaqueOp((1, 3))], {})
         mv2.attrs["check_move"] = checker(I, [])
         I.call(I.getattr(sim, "add_move"), [mv2], {"name": "d", "criteria": ContractCriteria()})
+    if case.get("restarted"):
+        # from_dict restored the reference energy of the current configuration; the re-attached calculator has computed nothing yet
+        sim.attrs["context"].attrs["last_potential_energy"] = oracle.energy(I, atoms)
     I.call(I.getattr(sim, "validate_simulation"), [], {})
     return sim, atoms, calc, oracle, mv
 
@@ -121,7 +126,8 @@ def build(S, tier):
                 reached = sum(1 for h in v["hist"] if h[1] is not None)
                 S.prove(f"{label}#ensures.one_evaluation_per_trial_that_reached_its_criteria@{i}", v["ev_trials"] == reached, kind="ensures",
                         why=f"{v['ev_trials']} evaluations for {reached} trials that reached the criteria (history {[h[1] if isinstance(h[1], (bool, type(None))) else 'sym' for h in v['hist']]})")
-                S.prove(f"{label}#ensures.logging_the_energy_costs_no_evaluation@{i}", v["ev_log"] == 0, kind="ensures", why=f"{v['ev_log']} evaluation(s) to report the current energy")
+                if not case.get("restarted"):     # a calculator re-attached after a restart has nothing cached until it is first asked
+                    S.prove(f"{label}#ensures.logging_the_energy_costs_no_evaluation@{i}", v["ev_log"] == 0, kind="ensures", why=f"{v['ev_log']} evaluation(s) to report the current energy")
                 # cache coherence: what the calculator believes is what is true
                 if isinstance(calc.atoms, AtomsHeap) and "energy" in calc.results:
                     E_cache = v["oracle"].energy(I, calc.atoms)
